@@ -208,6 +208,8 @@ func jobsFor(prop, tier string) []Job {
 					sj.P["twobyte"] = 1
 					if q { // the loads themselves are what matters for totality: smaller prior states, one follow-up step
 						sj.P["prior"], sj.P["depth"] = 1, 1
+					} else {
+						sj.P["prior"], sj.P["depth"] = 2, 2
 					}
 				}
 				jobs = append(jobs, sj)
@@ -401,7 +403,11 @@ func jsonContainerJobs(q bool, n, u int) []cjob {
 		addj(c, 2, map[string]string{"c": c}, map[string]int{"u": u - 1, "vu": u - 1})
 	}
 	for m := 3; m <= 6; m++ {
-		addj(fmt.Sprintf("btree%d", m), 4, map[string]string{"c": "btree"}, map[string]int{"m": m, "u": u + 2, "vu": 2})
+		bu := u + 2
+		if bu > 4 && !q && n <= 3 {
+			bu = 4 // C12 thorough: every prior state meets ~120 k loads; five keys would make one job the straggler
+		}
+		addj(fmt.Sprintf("btree%d", m), 40, map[string]string{"c": "btree"}, map[string]int{"m": m, "u": bu, "vu": 2})
 	}
 	return js
 }
